@@ -21,6 +21,7 @@ mod exact;
 mod momchk;
 mod entchk;
 mod covchk;
+mod fsumchk;
 
 fn main() {
     let args: Vec<String> = std::env::args().collect();
@@ -53,6 +54,7 @@ fn main() {
         "moments" => momchk::moments(&mut cfg, &mut rep),
         "entropy" => entchk::entropy(&mut cfg, &mut rep),
         "cov" => covchk::cov(&mut cfg, &mut rep),
+        "floatsums" => fsumchk::floatsums(&mut cfg, &mut rep),
         _ => {
             eprintln!("unknown enumeration {}", name);
             std::process::exit(4);
